@@ -194,18 +194,14 @@ Theorem C15_no_fragments_left_out :
     = [("th", ["Manifest.mpd"], ["V300"; "thumbs"], Some "V300", 8000)].
 Proof. exact (conj w_nofrag_left_out w_thumbs_ts0_served). Qed.
 
-(** An MPD without a type attribute is static by default and is served (formerly a start-up panic). *)
-Theorem C15_mpd_without_type_served :
+(** MPDs that rely on schema defaults - no type attribute (static), no mediaPresentationDuration -
+    are loaded and served (formerly nil dereferences in loadAsset that stopped the start-up). *)
+Theorem C15_mpd_defaults_served :
   served_ids (discover stored enc0 dec0 mode_scan w_l6 (fun _ _ => CAbsent))
-  = [("nt", ["Manifest.mpd"], ["V300"], Some "V300", 8000)].
-Proof. exact w_no_type_served. Qed.
-
-(** Defect (finding c15-mpd-without-duration-panics): an MPD without mediaPresentationDuration makes
-    the start-up panic instead of being loaded or skipped. *)
-Theorem C15_mpd_without_duration_panics :
-  match discover stored enc0 dec0 mode_scan w_l7 (fun _ _ => CAbsent) with Panic s => s | _ => "" end
-  = "loadAsset: invalid memory address or nil pointer dereference".
-Proof. exact w_no_duration_panics. Qed.
+    = [("nt", ["Manifest.mpd"], ["V300"], Some "V300", 8000)] /\
+  served_ids (discover stored enc0 dec0 mode_scan w_l7 (fun _ _ => CAbsent))
+    = [("nd", ["Manifest.mpd"], ["V300"], Some "V300", 8000)].
+Proof. exact (conj w_no_type_served w_no_duration_served). Qed.
 
 (** The hypothesis [init_ts_ok] of C15_same_tables is needed: with an init timescale of 0 the
     cache path resets DefaultSampleDuration. *)
@@ -244,7 +240,6 @@ Print Assumptions C15_time_gap_left_out.
 Print Assumptions C15_unreadable_file_harmless.
 Print Assumptions C15_admission_other_types.
 Print Assumptions C15_no_fragments_left_out.
-Print Assumptions C15_mpd_without_type_served.
-Print Assumptions C15_mpd_without_duration_panics.
+Print Assumptions C15_mpd_defaults_served.
 Print Assumptions C15_same_tables_ts0_refuted.
 Print Assumptions C15_example.
